@@ -219,15 +219,11 @@ def answer (op : String) (f : Flavour) (wi : Bool) (split : Option Nat) (n : Nat
     match op.splitOn " " with
     | [_, cm, afterS] =>
       let after := afterS.toNat!
-      -- enough plain calls to cover `after`, the consumer and the survivor's `n`
+      -- specification: from the records of plain calls
       let long := after + (total + 1) + n
-      let mrecs := (modelRecords f wi next hint counter cell showP long (s0, mem0)).1
       let srecs := specRecords f mem0 wi total item cell showP long
       let restLen (recs : List String) := (((recs.map itemOf).drop after).takeWhile (· ≠ "-")).length
-      -- the memory after exactly the calls that were made (matters for the owned flavour)
-      let callsM := after + consumerCalls cm (restLen mrecs) + n
       let callsS := after + consumerCalls cm (restLen srecs) + n
-      let finalMem := (modelRecords f wi next hint counter cell showP callsM (s0, mem0)).2.2.2
       let visited := (List.range callsS).filterMap fun k => (item k).bind cell
       let specMem : Mem := fun o => if f = Flavour.owned && visited.contains o then none else mem0 o
       let freshOf (mem : Mem) : String :=
@@ -237,8 +233,46 @@ def answer (op : String) (f : Flavour) (wi : Bool) (split : Option Nat) (n : Nat
             | none => "UB"
         if vals.isEmpty then "-" else ",".intercalate vals
       let t := if f = Flavour.owned then " drops=ok" else ""
-      both (consumeAnswer cm after n srecs (freshOf specMem) ++ t)
-        (consumeAnswer cm after n mrecs (freshOf finalMem) ++ t)
+      -- model: `after` calls, then std's loops `drain` / `nthOf` (Model/Iter.lean) over the
+      -- flavour's step function, then the survivor
+      let stepStr : σ × Mem → Outcome (Option String × (σ × Mem)) := fun st =>
+        if wi then
+          match withIndexNext (fun (s : σ × Mem) => counter s.1) (flavourNext f next cell) st with
+          | .panic k => .panic k
+          | .ok (x, st') => .ok (x.map fun (i, v) => s!"{showVal v}@{showP i}", st')
+        else
+          match flavourNext f next cell st with
+          | .panic k => .panic k
+          | .ok (x, st') => .ok (x.map showVal, st')
+      let showL (l : List String) : String := if l.isEmpty then "-" else ",".intercalate l
+      let model : String :=
+        match collect stepStr after (s0, mem0) with
+        | .panic k => s!"panic({k})"
+        | .ok (_, st1) =>
+          match cm.splitOn "." with
+          | ["nth", j] =>
+            match nthOf stepStr j.toNat! st1 with
+            | .panic k => s!"panic({k})"
+            | .ok (x, st2) =>
+              let r := modelRecords f wi next hint counter cell showP n st2
+              s!"nth={x.getD "-"} | {";".intercalate r.1}"
+          | ["panic", p] =>
+            -- `for_each` stops when the closure panics at its p-th element: p + 1 items
+            match drain stepStr (p.toNat! + 1) st1 with
+            | .panic k => s!"panic({k})"
+            | .ok (xs, st2) =>
+              let how := if xs.length = p.toNat! + 1 then "panicked" else "finished"
+              let r := modelRecords f wi next hint counter cell showP n st2
+              s!"seen={showL xs} {how} | {";".intercalate r.1} | fresh={freshOf r.2.2.2}"
+          | [c] =>
+            match drain stepStr (total + 1) st1 with
+            | .panic k => s!"panic({k})"
+            | .ok (xs, _) =>
+              if c = "count" then s!"count={xs.length}"
+              else if c = "last" then s!"last={xs.getLast?.getD "-"}"
+              else s!"fold={showL xs}"
+          | _ => "bad-op"
+      both (consumeAnswer cm after n srecs (freshOf specMem) ++ t) (model ++ t)
     | _ => "bad-op"
   else
   let m := modelRecords f wi next hint counter cell showP n (s0, mem0)
